@@ -49,12 +49,40 @@ class SetTyping:
             return SetTyping.ctor(e.left) or SetTyping.ctor(e.right)
         return False
 
+    def bind_arguments(self, model):
+        """One interprocedural step: a parameter is set-typed if some call site (resolved by the callee's name, for methods called
+        on self and for plain names) hands it a set-typed argument."""
+        self.param_sets = {}
+        by_name = {}
+        for f in model.functions.values():
+            by_name.setdefault(f.node.name, []).append(f)
+        for _ in range(2):
+            for f in model.functions.values():
+                loc = self.locals_of(f.node)
+                for c in walk_no_nested(f.node):
+                    if not isinstance(c, ast.Call):
+                        continue
+                    nm = c.func.attr if isinstance(c.func, ast.Attribute) and isinstance(c.func.value, ast.Name) and c.func.value.id in ("self", "cls") \
+                        else (c.func.id if isinstance(c.func, ast.Name) else None)
+                    cands = by_name.get(nm, []) if nm else []
+                    if len(cands) != 1:
+                        continue
+                    ps = [a.arg for a in cands[0].node.args.posonlyargs + cands[0].node.args.args if a.arg not in ("self", "cls")]
+                    for i_, a_ in enumerate(c.args):
+                        if i_ < len(ps) and not isinstance(a_, ast.Starred) and self.is_set(a_, loc):
+                            self.param_sets.setdefault(cands[0].qual, set()).add(ps[i_])
+                    for k_ in c.keywords:
+                        if k_.arg and self.is_set(k_.value, loc):
+                            self.param_sets.setdefault(cands[0].qual, set()).add(k_.arg)
+        self._qual_of = {id(f.node): f.qual for f in model.functions.values()}
+
     def locals_of(self, fn):
         loc = set()
         a = fn.args
         for arg in a.posonlyargs + a.args + a.kwonlyargs:
             if ann_is_set(arg.annotation):
                 loc.add(arg.arg)
+        loc |= getattr(self, "param_sets", {}).get(getattr(self, "_qual_of", {}).get(id(fn)), set())
         for _ in range(3):
             for n in walk_no_nested(fn):
                 if isinstance(n, (ast.Assign, ast.AnnAssign)) :
@@ -147,6 +175,7 @@ def r07a(ctx, reach):
     ctx.rule("R07a", "no hash-ordered collection (set/frozenset) is iterated into an order-sensitive sink in code "
                      "reachable from diff/print/CLI entry points")
     ty = SetTyping(m)
+    ty.bind_arguments(m)
     n_src = n_sites = 0
     for f in sorted(m.functions.values(), key=lambda f: f.qual):
         if ".<locals>." in f.qual:
@@ -697,6 +726,32 @@ def r07l(ctx):
                       "the fresh edit state (EditedTreeNode.__init__) is not established after the wrapped node's attributes are copied: "
                       "`first = a.diff(b); first.diff(c)` then shares first's edit_list / inserted lists with the new copy, appends the new "
                       "edits to them, and three repeats of first.diff(c) cost 19, 38, 57")
+    r07l2(ctx)
+
+
+def r07l2(ctx):
+    m = ctx.model
+    ctx.rule("R07l", "... and EditedTreeNode.__init__ really makes the state fresh: it assigns removed, inserted, matched_to, edit_list and "
+                     "edit unconditionally - a constructor that only fills in what the node 'does not carry yet' (setdefault, hasattr, a "
+                     "test on the instance dict) keeps the wrapped node's lists when that node is itself an edited one")
+    q = m.need_class("EditedTreeNode")
+    f = m.method(q, "__init__")
+    top = [s_ for s_ in f.node.body if isinstance(s_, (ast.Assign, ast.AnnAssign)) and self_attr(s_.targets[0] if isinstance(s_, ast.Assign) else s_.target)]
+    names = {self_attr(s_.targets[0] if isinstance(s_, ast.Assign) else s_.target) for s_ in top}
+    soft = [c for c in walk_no_nested(f.node) if isinstance(c, ast.Call) and (
+        (isinstance(c.func, ast.Attribute) and c.func.attr in ("setdefault", "get"))
+        or call_name(c) in ("hasattr", "getattr", "vars"))]
+    soft += [x for x in walk_no_nested(f.node) if isinstance(x, ast.Attribute) and x.attr == "__dict__"]
+    want = {"removed", "inserted", "matched_to", "edit_list", "edit"}
+    if soft or not (want <= names):
+        bad = (soft or [f.node])[0]
+        ctx.violation("R07l", f.file, "EditedTreeNode.__init__", bad, "fresh state assigned",
+                      f"EditedTreeNode.__init__ does not assign {sorted(want - names) or 'its state'} unconditionally"
+                      + (f" (`{norm(bad, 40)}` keeps what is already there)" if soft else "") +
+                      ": an edited copy of an edited node keeps and shares that node's edit_list / inserted lists")
+    else:
+        ctx.proved("R07l", f.file, "EditedTreeNode.__init__", f.node, "fresh state assigned", f"{sorted(want)} are assigned unconditionally")
+    ctx.floor("R07l-state", len(names), 5, "state attributes assigned at the top level of EditedTreeNode.__init__")
 
 
 def r07g(ctx):
